@@ -22,4 +22,6 @@ func Register(m map[string]func(*Ctx)) {
 	m["C19"] = RunC19
 	m["C15"] = RunC15
 	m["C18child"] = RunC18Child
+	m["engBworker"] = RunEngBWorker
+	m["ENGB"] = func(c *Ctx) { c.Rep.Rule = "engine B only (development entry point)"; runEngB(c, c.N(64, 600)) }
 }
